@@ -6,6 +6,7 @@ import (
 	"strings"
 
 	"github.com/bufbuild/protocompile"
+	"github.com/bufbuild/protocompile/experimental/verifharness/vhlib"
 	"github.com/bufbuild/protocompile/internal"
 	"github.com/bufbuild/protocompile/linker"
 	"google.golang.org/protobuf/proto"
@@ -14,24 +15,25 @@ import (
 	"google.golang.org/protobuf/types/descriptorpb"
 )
 
-func init() { register("escape", escapeCase) }
+func main() { vhlib.Main(escapeCase) }
 
 // modes:
-//   bytes: b -> esc = EscapeBytes(b), unesc = unescape(esc)
-//   raw:   s -> unesc = unescape(s)
-//   rt:    s -> the Go runtime's reading of default_value s on a bytes field
-//   e2e:   bs -> compile a file whose bytes fields have these defaults; Default() in both runtimes
+//
+//	bytes: b -> esc = EscapeBytes(b), unesc = unescape(esc)
+//	raw:   s -> unesc = unescape(s)
+//	rt:    s -> the Go runtime's reading of default_value s on a bytes field
+//	e2e:   bs -> compile a file whose bytes fields have these defaults; Default() in both runtimes
 func escapeCase(in map[string]any) map[string]any {
-	switch str(in, "mode") {
+	switch vhlib.Str(in, "mode") {
 	case "bytes":
-		b := unhex(str(in, "b"))
+		b := vhlib.Unhex(vhlib.Str(in, "b"))
 		esc := internal.EscapeBytes(b)
-		return map[string]any{"esc": hx([]byte(esc)), "unesc": hx([]byte(linker.VerifUnescape(esc)))}
+		return map[string]any{"esc": vhlib.Hx([]byte(esc)), "unesc": vhlib.Hx([]byte(linker.VerifUnescape(esc)))}
 	case "raw":
-		s := unhex(str(in, "s"))
-		return map[string]any{"unesc": hx([]byte(linker.VerifUnescape(string(s))))}
+		s := vhlib.Unhex(vhlib.Str(in, "s"))
+		return map[string]any{"unesc": vhlib.Hx([]byte(linker.VerifUnescape(string(s))))}
 	case "rt":
-		s := unhex(str(in, "s"))
+		s := vhlib.Unhex(vhlib.Str(in, "s"))
 		fd := &descriptorpb.FileDescriptorProto{
 			Name:   proto.String("rt.proto"),
 			Syntax: proto.String("proto2"),
@@ -52,14 +54,14 @@ func escapeCase(in map[string]any) map[string]any {
 			return map[string]any{"ok": false}
 		}
 		d := f.Messages().Get(0).Fields().Get(0).Default().Bytes()
-		return map[string]any{"ok": true, "out": hx(d)}
+		return map[string]any{"ok": true, "out": vhlib.Hx(d)}
 	case "e2e":
-		bs := strs(in, "bs")
+		bs := vhlib.Strs(in, "bs")
 		var sb strings.Builder
 		sb.WriteString("syntax = \"proto2\";\nmessage M {\n")
 		for i, h := range bs {
 			fmt.Fprintf(&sb, "  optional bytes f%d = %d [default = \"", i, i+1)
-			for _, c := range unhex(h) {
+			for _, c := range vhlib.Unhex(h) {
 				fmt.Fprintf(&sb, "\\x%02x", c)
 			}
 			sb.WriteString("\"];\n")
@@ -84,9 +86,9 @@ func escapeCase(in map[string]any) map[string]any {
 		rfields := rt.Messages().Get(0).Fields()
 		fdp := protodesc.ToFileDescriptorProto(f)
 		for i := range bs {
-			lk[i] = hx(fields.Get(i).Default().Bytes())
-			rv[i] = hx(rfields.Get(i).Default().Bytes())
-			dv[i] = hx([]byte(fdp.MessageType[0].Field[i].GetDefaultValue()))
+			lk[i] = vhlib.Hx(fields.Get(i).Default().Bytes())
+			rv[i] = vhlib.Hx(rfields.Get(i).Default().Bytes())
+			dv[i] = vhlib.Hx([]byte(fdp.MessageType[0].Field[i].GetDefaultValue()))
 		}
 		_ = protoreflect.Name("")
 		return map[string]any{"linker": lk, "runtime": rv, "text": dv}
